@@ -53,6 +53,7 @@ type QSpec struct {
 	Fin         string   `json:"fin"`     // plan for the k-th seed leaving the reactor: digit c = finish with c children, H = hold
 	Dir         string   `json:"dir"`
 	WaitMs      int      `json:"wait_ms"`      // watchdog for quiescence
+	GetConc     int      `json:"get_conc"`     // --hq-batch-concurrency: a fetch round is this many concurrent gets of bsize/GetConc URLs
 	PP          string   `json:"pp"`           // outlinks come from the real postprocessor (pptree.go); step "PA" produces them all
 	PPHops      int      `json:"pp_hops"`      // hop count of the seed of that tree
 	RealFin     bool     `json:"real_fin"`     // finished seeds go through the REAL finisher stage (finisher.Start workers)
@@ -217,9 +218,14 @@ func (f *fakeHQ) urls(w http.ResponseWriter, r *http.Request) {
 		size, _ := strconv.Atoi(r.URL.Query().Get("size"))
 		f.mu.Lock()
 		res := fault(f.spec.GetF, f.nGet)
-		if len(f.queue) == 0 && res == 'O' {
-			// an empty feed is not an event of the history (the consumer polls every 250 ms)
+		if len(f.queue) == 0 {
+			// an empty feed is not an event of the history (the consumer polls all the time) and does
+			// not use up the fault plan: a planned get fault always hits a round in which the feed has
+			// URLs, i.e. in which the sibling sub-fetches are served
 			f.mu.Unlock()
+			if f.spec.GetConc > 1 {
+				time.Sleep(15 * time.Millisecond) // with concurrent sub-fetches an all-empty round is retried at once
+			}
 			w.WriteHeader(204)
 			return
 		}
@@ -301,6 +307,9 @@ func runHQChild(spec *QSpec) (res QResult) {
 	c.HQKey, c.HQSecret, c.HQProject = "k", "s", project
 	c.HQBatchSize = spec.BSize
 	c.HQBatchConcurrency = 1
+	if spec.GetConc > 1 {
+		c.HQBatchConcurrency = spec.GetConc
+	}
 	c.WorkersCount = spec.Workers
 	c.UseHQ = true
 
@@ -562,6 +571,24 @@ func runHQChild(spec *QSpec) (res QResult) {
 			nd := 0
 			for _, c := range f.deleted {
 				nd += c
+			}
+			// every parsable URL that was handed out has left the reactor as a seed
+			wantSeeds, gotSeeds := 0, 0
+			for _, e := range f.events {
+				switch e.K {
+				case "G":
+					for _, u := range e.Batch {
+						raw, _ := hex.DecodeString(u[1])
+						if _, err := url.ParseRequestURI(string(raw)); err == nil {
+							wantSeeds++
+						}
+					}
+				case "S":
+					gotSeeds++
+				}
+			}
+			if gotSeeds < wantSeeds {
+				return false
 			}
 			return nd >= expectDeleted()
 		})
